@@ -24,6 +24,8 @@ EXPECT = {
     "M_abort_clean": ["C11"], "M_eos_err": ["C11", "C12"], "M_flush_keeps_one": ["C08"],
     "M_gz_flush_inner_only": ["C09"], "M_hint_upper": ["C12"], "M_level0_header": ["C17"],
     "M_head_writer": ["C15", "C17"], "M_lifo": ["C08"], "L_partial_chunking": [],
+    "M_zero_read_loop": ["C18"], "M_etag_micros": ["C18"], "M_chunk_overread": ["C18"],
+    "M_dotdot_last": ["C19"], "M_gz_dir": ["C19"], "M_dots_overreject": ["C19"], "M_vary_only_gz": ["C19"],
 }
 
 
@@ -62,7 +64,7 @@ def main():
         try:
             rec = {"expected": EXPECT.get(name), "flagged": [], "silent": [], "tool_error": []}
             if baseline:
-                t = sh("cd /repo && cargo test --workspace --no-fail-fast --offline 2>&1 | grep -E '^test result' ")
+                t = sh("cd /repo && timeout 300 cargo test --workspace --no-fail-fast --offline 2>&1 | grep -E '^test result' ")
                 rec["baseline_tests_pass"] = "FAILED" not in t.stdout and "failed; " in t.stdout and \
                     all(" 0 failed" in l for l in t.stdout.splitlines())
             todo = checks or EXPECT.get(name) or ["C01"]
